@@ -15,6 +15,7 @@ import (
 	"unsafe"
 
 	"github.com/couchbase/nitro"
+	"github.com/couchbase/nitro/skiplist"
 	"nvharness/internal/guardalloc"
 	"nvharness/internal/sched"
 )
@@ -183,6 +184,13 @@ func (e *mvccEngine) backupOp(toks []string) string {
 		}
 	}
 	churnAt, _ := argOf(toks, "churnat")
+	releaseSnap := -1
+	if r, ok := natArg(toks, "release"); ok {
+		if r < 1 || r > len(e.snaps) || e.refs[r-1] <= 0 {
+			return "bad-op"
+		}
+		releaseSnap = r - 1
+	}
 	switch toks[0] {
 	case "manifest":
 		if len(toks) != 3 {
@@ -226,8 +234,10 @@ func (e *mvccEngine) backupOp(toks []string) string {
 		e.bkdir = freshDir()
 		e.refs[i]--
 		cb, finish := e.churnCallback(churn, hasChurn, churnAt == "gc", churnEach)
+		cb, finish2 := e.releaseDuringBackup(releaseSnap, cb)
 		err := e.db.StoreToDisk(e.bkdir, s, conc, cb)
 		finish()
+		finish2()
 		if err != nil {
 			return "err"
 		}
@@ -379,6 +389,25 @@ func (e *mvccEngine) churnCallback(churn []int, has bool, atGC bool, each bool) 
 	}
 	if each {
 		var mu sync.Mutex
+		restore := func() {}
+		if e.alloc != nil {
+			// user-managed memory: whenever the backup's own goroutine re-enters the access barrier (iterator
+			// refresh, next shard) let the free workers finish first, so that everything the barrier has just
+			// released is really returned to the allocator (and poisoned) before the backup goes on
+			// (the Visitor scans its shards on goroutines of its own, so the hook is not tied to one goroutine)
+			var busy int32
+			prev := skiplist.VerifHook
+			skiplist.VerifHook = func(point int, obj unsafe.Pointer) {
+				if prev != nil {
+					prev(point, obj)
+				}
+				if slPoint[point] == "ACQ_LOAD" && atomic.CompareAndSwapInt32(&busy, 0, 1) {
+					e.waitFrees()
+					atomic.StoreInt32(&busy, 0)
+				}
+			}
+			restore = func() { skiplist.VerifHook = prev }
+		}
 		cb := func(ent *nitro.ItemEntry) {
 			mu.Lock()
 			defer mu.Unlock()
@@ -390,7 +419,7 @@ func (e *mvccEngine) churnCallback(churn []int, has bool, atGC bool, each bool) 
 			cs.Close()
 			e.gcQuiesce()
 		}
-		return cb, func() {}
+		return cb, restore
 	}
 	churned := false
 	doChurn := func() {
@@ -436,6 +465,79 @@ func (e *mvccEngine) churnCallback(churn []int, has bool, atGC bool, each bool) 
 		if !churned {
 			doChurn()
 		}
+	}
+}
+
+// releaseDuringBackup closes the script's reference on snapshot `rs` in the middle of a backup: at the first
+// re-entry of the storing goroutine into the access barrier (iterator refresh or next shard) after at least one
+// item has been written, i.e. in the gap in which the backup holds no barrier token. Collection and the free
+// workers are awaited, so whatever that snapshot pinned is really gone when the backup goes on.
+func (e *mvccEngine) releaseDuringBackup(rs int, cb nitro.ItemCallback) (nitro.ItemCallback, func()) {
+	if rs < 0 {
+		return cb, func() {}
+	}
+	var mu sync.Mutex
+	seen, done := false, false
+	fire := func() {
+		mu.Lock()
+		first := seen && !done
+		if first {
+			done = true
+		}
+		mu.Unlock()
+		if first {
+			e.refs[rs]--
+			e.snaps[rs].Close()
+			e.gcQuiesce()
+			if e.alloc != nil {
+				e.waitFrees()
+			}
+		}
+	}
+	prev := skiplist.VerifHook
+	skiplist.VerifHook = func(point int, obj unsafe.Pointer) {
+		if prev != nil {
+			prev(point, obj)
+		}
+		if slPoint[point] == "ACQ_LOAD" {
+			fire()
+		}
+	}
+	wrapped := func(ent *nitro.ItemEntry) {
+		mu.Lock()
+		seen = true
+		mu.Unlock()
+		if cb != nil {
+			cb(ent)
+		}
+	}
+	return wrapped, func() {
+		skiplist.VerifHook = prev
+		mu.Lock()
+		pending := !done
+		done = true
+		mu.Unlock()
+		if pending {
+			e.refs[rs]--
+			e.snaps[rs].Close()
+			e.gcQuiesce()
+		}
+	}
+}
+
+// waitFrees waits (bounded) until the free workers are idle: nothing queued and the allocator's free count stable.
+func (e *mvccEngine) waitFrees() {
+	deadline := time.Now().Add(50 * time.Millisecond)
+	last, stable := -1, time.Now()
+	for time.Now().Before(deadline) {
+		_, _, _, fl, _ := e.db.VerifGCState()
+		n := e.alloc.Frees
+		if n != last || fl != 0 {
+			last, stable = n, time.Now()
+		} else if time.Since(stable) > 300*time.Microsecond {
+			return
+		}
+		time.Sleep(50 * time.Microsecond)
 	}
 }
 
